@@ -200,6 +200,7 @@ package sourceaddrs
 //@   sweep
 //@ func (RemotePackage).String -> (r)
 //@   pure
+//@   defines def.pkgstr: r == remotePkgStr(p)
 //@   sweep
 //@ func (RemotePackage).subPathString -> (r)
 //@   pure
